@@ -30,6 +30,11 @@ def build(tier="quick", seed=0):
     b = Bundle("C13")
     tides_contract(b)
     call_sites(b)
+    forwarding(b)
+    layered_sums(b)
+    b.replayer("*::forwards", _replay_stale)
+    b.replayer("*::ensures:spin_follows_orbit*", _replay_c13)
+    b.replayer("*#global_sums*", _replay_c13)
     bounded_histories(b, tier, seed)
     b.assume("ghost model: eccentricity_func, obliquity_func, calculate_modes_func and calc_tidal_susceptibility are deterministic functions of their arguments (uninterpreted); cache coherence is equality with that function of the CURRENT state")
     b.assume("collapse_modes, world.tidal_frequencies_changed, orbit.dissipation_changed and the layer / rheology / thermal cascade are taken by contract (no effect on the caches named above); the whole-history claim over those objects is only covered by the bounded native run")
@@ -181,6 +186,12 @@ def call_sites(b):
                 dirty.add("e")
             if orbit._attrs["_orbital_frequencies"][1] != R("n1_old") or orbit._attrs["_semi_major_axes"][1] != R("a1_old"):
                 dirty.add("n")
+            if sync and "n" in dirty:
+                om, n_now = world._attrs.get("_spin_frequency"), orbit._attrs["_orbital_frequencies"][1]
+                same = sp.simplify(sp.sympify(om) - sp.sympify(n_now)) == 0
+                ground(b, f"{mfn.key}::ensures:spin_follows_orbit{tag}", mfn.key, "a world forced into synchronous rotation has spin frequency == orbital frequency after the call changed the orbital frequency "
+                       "(whichever of period / frequency / semi-major axis addressed it, through the world or through the orbit)", bool(same),
+                       detail=f"spin {om}; orbital frequency {n_now}", refuted_model=None if same else dict(spin=str(om), orbital_frequency=str(n_now)))
             ground(b, f"{mfn.key}::writes{tag}", mfn.key, f"the setter writes the state components it is about ({sorted(expect_dirty)}" + (" plus the spin rate when spin-synchronous)" if sync else ")"),
                    expect_dirty <= dirty, detail=f"written: {sorted(dirty)}")
             last = rec[-1] if rec else None
@@ -200,6 +211,76 @@ def call_sites(b):
     ok = len(calls_) == 1 and {k.arg: ast.unparse(k.value) for k in calls_[0].keywords} == dict(eccentricity_change="eccentricity_changed", obliquity_change="obliquity_changed",
                                                                                                  orbital_freq_changed="orbital_freq_changed", spin_freq_changed="spin_freq_changed")
     ground(b, f"{FWT}::TidalWorld.orbit_spin_changed::forwards", f"{FWT}::TidalWorld.orbit_spin_changed", "the world forwards its four change flags to the tides object unchanged", ok)
+
+
+def layered_sums(b):
+    """LayeredTides.collapse_modes: the global heating / potential derivatives are the sums over the tidally active layers, for ARRAY-valued layer
+    results as well, and forming them leaves every per-layer result (the objects also stored in tidal_heating_by_layer and exposed by the layers)
+    unchanged.  Fragment: the statements of the `if not broke_out:` block up to the per-order-l loop, executed with ndarray object semantics."""
+    from tpv.symex import NdArr
+    rel = "TidalPy/tides/methods/layered.py"
+    try:
+        fn = Fn(rel, "LayeredTides.collapse_modes")
+    except ExtractError as e:
+        b.subset_exits.append(str(e))
+        return
+    blocks = [n for n in ast.walk(fn.node) if isinstance(n, ast.If) and ast.unparse(n.test) == "not broke_out"]
+    if len(blocks) != 1:
+        b.subset_exits.append(f"{fn.key}: `if not broke_out:` block not found")
+        return
+    stmts = []
+    for st in blocks[0].body:
+        if isinstance(st, ast.For) and "order_l" in ast.unparse(st.target):
+            break
+        stmts.append(st)
+    if not any("_tidal_heating_global" in ast.unparse(st) for st in stmts):
+        b.subset_exits.append(f"{fn.key}: global sums not found in the block")
+        return
+    for nlayers in (1, 2, 3):
+        names = ("tidal_heating", "dUdM", "dUdw", "dUdO")
+        orig = {nm: [[R(f"{nm}_{k}_{j}") for j in range(2)] for k in range(nlayers)] for nm in names}
+        arrs = {nm: [NdArr(list(orig[nm][k])) for k in range(nlayers)] for nm in names}
+        self_ = Obj(None)
+        env = dict(self=self_, broke_out=False, tidal_heating_by_layer={f"layer{k}": arrs["tidal_heating"][k] for k in range(nlayers)},
+                   neg_imk_by_layer={}, dUdM_by_layer={f"layer{k}": arrs["dUdM"][k] for k in range(nlayers)}, dUdw_by_layer={f"layer{k}": arrs["dUdw"][k] for k in range(nlayers)},
+                   dUdO_by_layer={f"layer{k}": arrs["dUdO"][k] for k in range(nlayers)}, love_number_by_layer={},
+                   nonNone_tidal_heating=list(arrs["tidal_heating"]), nonNone_dUdM=list(arrs["dUdM"]), nonNone_dUdw=list(arrs["dUdw"]), nonNone_dUdO=list(arrs["dUdO"]))
+        fr, ex, paths = run_fragment(b, fn, stmts, f"global_sums[{nlayers}]", env, [], opts=dict(definedness=False))
+        if not paths:
+            continue
+        if len(paths) != 1 or paths[0].outcome != "return":
+            b.subset_exits.append(f"{fr.key}: {[p.outcome for p in paths]}")
+            continue
+        attr = {"tidal_heating": "_tidal_heating_global", "dUdM": "_dUdM", "dUdw": "_dUdw", "dUdO": "_dUdO"}
+        bad_sum, bad_frame = [], []
+        for nm in names:
+            got = self_._attrs.get(attr[nm])
+            want = [sum(orig[nm][k][j] for k in range(nlayers)) for j in range(2)]
+            if not (isinstance(got, (list, NdArr)) and len(got) == 2 and all(sp.simplify(sp.sympify(g_) - w_) == 0 for g_, w_ in zip(got, want))):
+                bad_sum.append((nm, str(got)[:80]))
+            for k in range(nlayers):
+                if [sp.sympify(x) for x in arrs[nm][k]] != [sp.sympify(x) for x in orig[nm][k]]:
+                    bad_frame.append((nm, k, str(list(arrs[nm][k]))[:80]))
+        ground(b, f"{fr.key}::ensures:global_is_sum_of_layers", fr.key, "global heating and potential derivatives == sum over the tidally active layers (element-wise for array-valued states)", not bad_sum,
+               detail=str(bad_sum)[:200], refuted_model=dict(wrong=str(bad_sum)[:200]) if bad_sum else None)
+        ground(b, f"{fr.key}::frame:layer_results_unchanged", fr.key, "forming the global sums does not modify any per-layer result array (they stay what layer.tidal_heating / tidal_heating_by_layer expose)", not bad_frame,
+               detail=str(bad_frame)[:200], refuted_model=dict(modified=str(bad_frame)[:200]) if bad_frame else None)
+
+
+def forwarding(b):
+    """GlobalApproxTides / LayeredTides.orbit_spin_changed hand their four change flags to the base-class update one-to-one"""
+    for rel, cname in (("TidalPy/tides/methods/global_approx.py", "GlobalApproxTides"), ("TidalPy/tides/methods/layered.py", "LayeredTides")):
+        try:
+            fn = Fn(rel, f"{cname}.orbit_spin_changed")
+        except ExtractError:
+            continue          # the subclass does not override the method: nothing to forward
+        b.add_fn(fn)
+        calls_ = [x for x in ast.walk(fn.node) if isinstance(x, ast.Call) and ast.unparse(x.func) == "super().orbit_spin_changed"]
+        want = dict(eccentricity_change="eccentricity_change", obliquity_change="obliquity_change", orbital_freq_changed="orbital_freq_changed", spin_freq_changed="spin_freq_changed")
+        got = [{k.arg: ast.unparse(k.value) for k in c_.keywords if k.arg in want} for c_ in calls_]
+        ok = len(calls_) >= 1 and all(g_ == want for g_ in got)
+        ground(b, f"{fn.key}::forwards", fn.key, "the four change flags reach the base-class update unchanged (super().orbit_spin_changed(eccentricity_change=eccentricity_change, ...))", ok,
+               detail=str(got)[:300], refuted_model=None if ok else dict(keywords=str(got)[:300]))
 
 
 # ---------------------------------------------------------------------------------------------
@@ -292,4 +373,61 @@ result = {"after_set_eccentricity": h1, "fresh_world_same_state": ref, "after_se
             abs(v["after_set_obliquity"] - v["fresh_world_same_obliquity"]) > 1e-9 * abs(v["fresh_world_same_obliquity"])
     except Exception:
         rec["confirmed"] = False
+    return rec
+
+
+_C13_NATIVE = r'''
+import logging, warnings
+import numpy as np
+warnings.filterwarnings('ignore')
+from TidalPy.structures import build_world, build_from_world
+from TidalPy.structures.orbit import PhysicsOrbit
+logging.disable(logging.CRITICAL)
+fails = []
+STAR = build_world('55cnc'); IO = build_world('io_simple')
+# (a) forced spin synchronous world addressed by semi-major axis through the world's batched setter
+cfg = {"force_spin_sync": True, "type": "simple_tidal", "mass": 5.972e24, "slices": 40,
+       "tides": {"model": "global_approx", "fixed_q": 125.0, "use_ctl": False, "eccentricity_truncation_lvl": 2, "max_tidal_order_l": 2, "obliquity_tides_on": True}}
+w = build_from_world(build_world("earth_simple"), new_config=cfg); star = build_from_world(STAR, new_config={})
+orb = PhysicsOrbit(star, tidal_host=star, tidal_bodies=w)
+w.set_state(orbital_period=4.0, eccentricity=0.05, obliquity=0.1)
+w.set_state(semi_major_axis=2.0 * float(np.asarray(orb.get_semi_major_axis(w))))
+n_, om = float(np.asarray(orb.get_orbital_frequency(w))), float(np.asarray(w.spin_frequency))
+if abs(n_ - om) > 1e-12 * abs(n_): fails.append(["sync", "spin-synchronous world after world.set_state(semi_major_axis=...): spin %.6e, orbital frequency %.6e" % (om, n_)])
+# (b) layered world, two tidally active layers, array-valued orbital period: layers add up to the global value and equal per-element float worlds
+def lw():
+    c = {"force_spin_sync": True, "type": "layered", "tides": {"model": "layered", "eccentricity_truncation_lvl": 2, "max_tidal_order_l": 2, "obliquity_tides_on": True},
+         "layers": {"Core": {"is_tidally_active": True}, "Mantle": {"is_tidally_active": True}}}
+    ww = build_from_world(IO, new_config=c); ss = build_from_world(STAR, new_config={})
+    oo = PhysicsOrbit(ss, tidal_host=ss, tidal_bodies=ww)
+    ww.core.temperature = 1750.0; ww.mantle.temperature = 1500.0
+    return ww, oo
+try:
+    periods = np.asarray([3.0, 5.0])
+    ww, oo = lw(); ww.set_state(orbital_period=periods, eccentricity=0.1, obliquity=0.1)
+    by_layer = [np.asarray(L.tidal_heating, dtype=float) for L in ww.layers]
+    tot = np.asarray(ww.tidal_heating_global, dtype=float)
+    if not np.allclose(sum(by_layer), tot, rtol=1e-9): fails.append(["layered", "layers' tidal heating does not add up to the global value: %r vs %r" % ([x.tolist() for x in by_layer], tot.tolist())])
+    for j, P in enumerate(periods):
+        w1, o1 = lw(); w1.set_state(orbital_period=float(P), eccentricity=0.1, obliquity=0.1)
+        for L_arr, L_f in zip(ww.layers, w1.layers):
+            a_, f_ = float(np.asarray(L_arr.tidal_heating, dtype=float)[j]), float(np.asarray(L_f.tidal_heating))
+            if abs(a_ - f_) > 1e-9 * max(abs(f_), 1e-300): fails.append(["layered", "layer %s: array state gives %.6e, scalar state %.6e" % (L_arr.name, a_, f_)])
+except Exception as ex:
+    fails.append(["layered-setup", repr(ex)[:200]])
+result = dict(failures=fails[:6], n=len(fails))
+'''
+
+
+def _replay_c13(ob, res):
+    from tpv import native
+    out = native.run(dict(code=_C13_NATIVE), timeout=1500)
+    rec = dict(replayed=True, native=out)
+    if "result" not in out:
+        rec["confirmed"] = False
+        return rec
+    fam = "sync" if "spin_follows_orbit" in ob.oid else ("layered" if "global_sums" in ob.oid else None)
+    hits = [f for f in out["result"]["failures"] if f[0] == fam]
+    rec["confirmed"] = bool(hits)
+    rec["detail"] = hits[:3]
     return rec
